@@ -1,24 +1,40 @@
 // h_json exercises encoding/json exactly as varlink/go uses it.
-//   enc     <value-description>        -> hex of json.Marshal(value) | ERR
-//   reply   <value-description|-> <continues 0/1> <hex error name|->   -> hex of the reply the service would write | ERR
-//   parse   <hex text>                 -> dump of the decoded tree (token stream, member order kept) | ERR
-//   valid   <hex text>                 -> 1 | 0
-//   compact <hex raw>                  -> hex of json.Marshal(json.RawMessage(raw)) | ERR
-//   call    <hex frame>                -> S<hex method> <N|R<hex params>> <T|F more> <T|F oneway> <T|F upgrade> | ERR
-//   struct  <schema> <hex text>        -> field dump | ERR     (schema: reply, iface, info, descr, method, parameter, address)
+//
+//	enc     <value-description>        -> hex of json.Marshal(value) | ERR
+//	reply   <value-description|-> <continues 0/1> <hex error name|->   -> hex of the reply the service would write | ERR
+//	parse   <hex text>                 -> dump of the decoded tree (token stream, member order kept) | ERR
+//	valid   <hex text>                 -> 1 | 0
+//	compact <hex raw>                  -> hex of json.Marshal(json.RawMessage(raw)) | ERR
+//	call    <hex frame>                -> S<hex method> <N|R<hex params>> <T|F more> <T|F oneway> <T|F upgrade> | ERR
+//	struct  <schema> <hex text>        -> field dump | ERR     (schema: reply, iface, info, descr, method, parameter, address)
 package main
 
 import (
 	"bufio"
+	"context"
 	"encoding/hex"
 	"encoding/json"
 	"fmt"
+	"io"
+	"net"
 	"os"
 	"strings"
+	"time"
 
 	"github.com/varlink/go/varlink"
 	"verif/harness/vt"
 )
+
+type capConn struct{ buf []byte }
+
+func (c *capConn) Read(p []byte) (int, error)         { return 0, io.EOF }
+func (c *capConn) Write(p []byte) (int, error)        { c.buf = append(c.buf, p...); return len(p), nil }
+func (c *capConn) Close() error                       { return nil }
+func (c *capConn) LocalAddr() net.Addr                { return nil }
+func (c *capConn) RemoteAddr() net.Addr               { return nil }
+func (c *capConn) SetDeadline(t time.Time) error      { return nil }
+func (c *capConn) SetReadDeadline(t time.Time) error  { return nil }
+func (c *capConn) SetWriteDeadline(t time.Time) error { return nil }
 
 func sdump(s string) string { return "S" + vt.Hx([]byte(s)) }
 func bdump(b bool) string {
@@ -67,6 +83,24 @@ func handle(mode string, f []string) (out string) {
 			return "ERR"
 		}
 		return vt.Hx(b)
+	case "send":
+		// the bytes Connection.Send puts on the wire: <flags> <hexmethod> <value|->
+		cc := &capConn{}
+		conn := varlink.VerifNewConnection(cc)
+		var p interface{}
+		if f[2] != "-" {
+			p = vt.Parse(f[2])
+		}
+		var fl uint64
+		fmt.Sscan(f[0], &fl)
+		_, err := conn.Send(context.Background(), string(vt.Unhex(f[1])), p, fl)
+		if err != nil {
+			if e, ok := err.(*varlink.Error); ok {
+				return "REFUSED " + vt.Hx([]byte(fmt.Sprint(e.Parameters))) + " " + vt.Hx(cc.buf)
+			}
+			return "ERR " + vt.Hx(cc.buf)
+		}
+		return vt.Hx(cc.buf)
 	case "parse":
 		d, err := vt.DumpRaw(vt.Unhex(f[0]))
 		if err != nil || !json.Valid(vt.Unhex(f[0])) {
